@@ -350,7 +350,8 @@ def check (c):
             if 'at' in q:
                 q ['at'] = [q ['at'][0] + dx] + list (q ['at'][1:])
         return s
-    if all (q ['k'] == 'w' for q in spec ['geo']):
+    # (structures written with transformations of their own are not moved here: the shift would be rotated / scaled with them)
+    if all (q ['k'] == 'w' for q in spec ['geo']) and not spec.get ('tr') and not spec.get ('sc'):
         med2 = [[g ['eps'], g ['sig'], 0.0, g ['c1']], [g ['eps2'], g ['sig2'], g ['h2']]]
         ma, _, _ = solved (spec, med2, 'linear')
         mb, _, _ = solved (shifted (-g ['c1']), [[g ['eps'], g ['sig'], 0.0, 0.0], [g ['eps2'], g ['sig2'], g ['h2']]], 'linear')
